@@ -76,6 +76,10 @@ case("n01-tdz-assign-before-init", "found by this check: a store to a register-r
 case("n02-tdz-const-assign-typeerror", "found by this check (and C04): a store to a const in its TDZ raises TypeError instead of ReferenceError",
      main_prog([("STry", [("SExpr", ("EAssign", pid("c"), num(1))), pr(s("no error"))], (pid("e"), [pr(s("caught"), member(ident("e"), "name"))]), None),
                 let("c", num(2), "KConst"), pr(ident("c"))]))
+case("n03-exponent-nan", "a NaN exponent gives NaN for every base (Number::exponentiate step 1); powf(1, NaN) is 1",
+     main_prog([let("e", num(float("nan"))), pr(("EBinary", "BExp", num(1), ident("e")), ("EBinary", "BExp", num(-1), ident("e")), ("EBinary", "BExp", num(2), ident("e")))]))
+case("n04-completion-lost-after-declaration", "found by this check: 7; var w = f(); completes with undefined (spec: 7 — a declaration has an empty completion)",
+     script([("SFunDecl", u("f"), 0), ("SExpr", num(7)), ("SDecl", "KVar", [(pid("w"), call(ident("f")))])], funcs=[func(name="f", body=[])]))
 # agreeing smoke programs
 case("s01-smoke", "let / for / try / finally / throw / print / completion value",
      script([let("x", num(1)),
